@@ -10,3 +10,10 @@ mod typer;
 
 pub use typer::TyperError;
 pub use typer::type_check;
+
+/// Verification hooks (only with `--cfg trark_rssl_verif`): implicit conversions and constant evaluator
+#[cfg(trark_rssl_verif)]
+pub mod verif {
+    pub use crate::casting::*;
+    pub use crate::evaluator::*;
+}
